@@ -43,7 +43,7 @@ namespace options
 {
     group::group(const options::parser& parser, const std::string& name,
                  const std::string& description)
-    : parser_(parser), name_(name), description_(description)
+    : parser_(&parser), name_(name), description_(description)
     {
     }
 
@@ -82,7 +82,7 @@ namespace options
 
     options::option& group::option(const std::string& name, const std::string& description)
     {
-        if (parser_.has_option_with_name(name) && options_.count(name) == 0)
+        if (parser_->has_option_with_name(name) && options_.count(name) == 0)
         {
             raise<parser_error>("Trying to redefine option. Name: ", name);
         }
@@ -101,7 +101,7 @@ namespace options
     options::multi_option& group::multi_option(const std::string& name,
                                                const std::string& description)
     {
-        if (parser_.has_option_with_name(name) && multi_options_.count(name) == 0)
+        if (parser_->has_option_with_name(name) && multi_options_.count(name) == 0)
         {
             raise<parser_error>("Trying to redefine option. Name: ", name);
         }
@@ -118,7 +118,7 @@ namespace options
 
     options::toggle& group::toggle(const std::string& name, const std::string& description)
     {
-        if (parser_.has_option_with_name(name) && toggles_.count(name) == 0)
+        if (parser_->has_option_with_name(name) && toggles_.count(name) == 0)
         {
             raise<parser_error>("Trying to redefine option. Name: ", name);
         }
